@@ -1,6 +1,6 @@
 (* Proofs/C06_PushCanon.v - path_segments_mut sessions of clear / push / extend on the canonical records with an
    authority (C02's Canon, both classes) stay canonical: the exact evaluation of Proofs/C06_SegPush.v turns the
-   session into an operation on the canonical path (segments, last segment); a pushed segment outside F-C06-7 is a
+   session into an operation on the canonical path (segments, last segment); a pushed segment that is not skipped is a
    good segment of the class (clean for PATH, no '/', no '\' for special schemes, not a dot segment).  Hence such
    sessions can be steps of the histories of C06_all (ReachC6p below). *)
 From RU Require Import Base.Prelude Base.Utf8 Base.Utf8Facts Model.AsciiSet Gen.Tables
@@ -70,7 +70,7 @@ Definition pth_clear (p : pth) : pth := match p with None => None | Some _ => So
 Lemma segs_text_snoc segs s : segs_text (segs ++ [s]) = segs_text segs ++ s ++ [47].
 Proof. unfold segs_text. rewrite map_app, concat_app. cbn [map concat]. rewrite app_nil_r. reflexivity. Qed.
 
-Lemma push_text_pth st p seg : seg_skipped seg = false ->
+Lemma push_text_pth st p seg : seg_skipped (strip_tnl seg) = false ->
   push_text st (pth_text p) seg = pth_text (pth_push p (seg_text st seg)).
 Proof.
   intros Hk. unfold push_text. rewrite Hk. destruct p as [[segs last]|]; cbn [pth_text pth_push].
@@ -127,34 +127,31 @@ Qed.
 (* operations that only clear or grow the path *)
 Definition psm_op_grow (o : psm_op) : Prop := match o with PClear | PPush _ | PExtend _ => True | _ => False end.
 
-Lemma extend_text_cls st segs : forall p, auth_cls st p -> Forall usv_list segs -> Forall (fun s => known_c06_7 s = false) segs ->
+Lemma extend_text_cls st segs : forall p, auth_cls st p -> Forall usv_list segs ->
   exists p', auth_cls st p' /\ extend_text st (pth_text p) segs = pth_text p'.
 Proof.
-  induction segs as [|seg rest IH]; intros p Hc Hu Hk; cbn [extend_text fold_left].
+  induction segs as [|seg rest IH]; intros p Hc Hu; cbn [extend_text fold_left].
   - exists p. split; [exact Hc | reflexivity].
   - pose proof (Forall_inv Hu) as Hu1. pose proof (Forall_inv_tail Hu) as Hu2.
-    pose proof (Forall_inv Hk) as Hk1. pose proof (Forall_inv_tail Hk) as Hk2. cbv beta in Hk1.
-    destruct (seg_skipped seg) eqn:Esk.
-    + unfold push_text at 2. rewrite Esk. apply IH; assumption.
-    + unfold known_c06_7 in Hk1. rewrite Esk in Hk1. cbn [negb andb] in Hk1.
-      rewrite (push_text_pth st p seg Esk). destruct (seg_text_good st seg Hu1 Hk1) as [G Gsp].
-      apply IH; [apply pth_push_cls; assumption | assumption | assumption].
+    destruct (seg_skipped (strip_tnl seg)) eqn:Hk1.
+    + unfold push_text at 2. rewrite Hk1. apply IH; assumption.
+    + rewrite (push_text_pth st p seg Hk1). destruct (seg_text_good st seg Hu1 Hk1) as [G Gsp].
+      apply IH; [apply pth_push_cls; assumption | assumption].
 Qed.
 
-Lemma session_text_cls st ops : forall p, auth_cls st p -> Forall psm_op_usv ops -> Forall psm_op_plain ops ->
+Lemma session_text_cls st ops : forall p, auth_cls st p -> Forall psm_op_usv ops ->
   Forall psm_op_grow ops -> exists p', auth_cls st p' /\ session_text st (pth_text p) ops = pth_text p'.
 Proof.
-  induction ops as [|o rest IH]; intros p Hc Hu Hk Hg; cbn [session_text fold_left].
+  induction ops as [|o rest IH]; intros p Hc Hu Hg; cbn [session_text fold_left].
   - exists p. split; [exact Hc | reflexivity].
   - pose proof (Forall_inv Hu) as Hu1. pose proof (Forall_inv_tail Hu) as Hu2.
-    pose proof (Forall_inv Hk) as Hk1. pose proof (Forall_inv_tail Hk) as Hk2.
     pose proof (Forall_inv Hg) as Hg1. pose proof (Forall_inv_tail Hg) as Hg2.
     assert (exists p1, auth_cls st p1 /\ op_text st (pth_text p) o = pth_text p1) as (p1 & Hc1 & E1).
-    { destruct o; cbn [op_text psm_op_grow psm_op_usv psm_op_plain] in *; try contradiction.
+    { destruct o; cbn [op_text psm_op_grow psm_op_usv] in *; try contradiction.
       - exists (pth_clear p). split; [apply pth_clear_cls; exact Hc | apply clear_text_pth].
       - apply (extend_text_cls st [s] p Hc); constructor; try assumption; constructor.
       - apply (extend_text_cls st ss p Hc); assumption. }
-    rewrite E1. apply (IH p1 Hc1 Hu2 Hk2 Hg2).
+    rewrite E1. apply (IH p1 Hc1 Hu2 Hg2).
 Qed.
 
 (* ---------- pop and pop_if_empty on the canonical path ---------- *)
@@ -249,23 +246,22 @@ Proof.
     apply (forallb_removelast good_seg_sp (s0 :: sg0) []); [discriminate | exact H1].
 Qed.
 
-(* every editor operation outside F-C06-7 is an operation on the canonical path *)
-Lemma session_text_cls_all st ops : forall p, auth_cls st p -> Forall psm_op_usv ops -> Forall psm_op_plain ops ->
+(* every editor operation (any &str argument) is an operation on the canonical path *)
+Lemma session_text_cls_all st ops : forall p, auth_cls st p -> Forall psm_op_usv ops ->
   exists p', auth_cls st p' /\ session_text st (pth_text p) ops = pth_text p'.
 Proof.
-  induction ops as [|o rest IH]; intros p Hc Hu Hk; cbn [session_text fold_left].
+  induction ops as [|o rest IH]; intros p Hc Hu; cbn [session_text fold_left].
   - exists p. split; [exact Hc | reflexivity].
   - pose proof (Forall_inv Hu) as Hu1. pose proof (Forall_inv_tail Hu) as Hu2.
-    pose proof (Forall_inv Hk) as Hk1. pose proof (Forall_inv_tail Hk) as Hk2.
     assert (exists p1, auth_cls st p1 /\ op_text st (pth_text p) o = pth_text p1) as (p1 & Hc1 & E1).
     { pose proof (C06_SpliceAuth.pth_cls_ok st p Hc) as Hok.
-      destruct o; cbn [op_text psm_op_usv psm_op_plain] in *.
+      destruct o; cbn [op_text psm_op_usv] in *.
       - exists (pth_clear p). split; [apply pth_clear_cls; exact Hc | apply clear_text_pth].
       - exists (pth_pop_if_empty p). split; [apply pth_pop_if_empty_cls; exact Hc | apply pop_if_empty_text_pth; exact Hok].
       - exists (pth_pop p). split; [apply pth_pop_cls; exact Hc | apply pop_text_pth; exact Hok].
       - apply (extend_text_cls st [s] p Hc); constructor; try assumption; constructor.
       - apply (extend_text_cls st ss p Hc); assumption. }
-    rewrite E1. apply (IH p1 Hc1 Hu2 Hk2).
+    rewrite E1. apply (IH p1 Hc1 Hu2).
 Qed.
 
 Section PushCanon.
@@ -290,60 +286,60 @@ Qed.
 
 (* the session maps auth_url .. p .. to auth_url .. p' .. with p' canonical of the same class *)
 Theorem psm_grow_auth st sch ui h pt p q f ops u' : auth_ok st sch ui h pt p q f -> auth_cls st p ->
-  Forall psm_op_usv ops -> Forall psm_op_plain ops -> Forall psm_op_grow ops ->
+  Forall psm_op_usv ops -> Forall psm_op_grow ops ->
   path_segments_session dbg (auth_url sch ui h pt p q f) ops = Some (u', SOk) ->
   exists p', auth_cls st p' /\ u' = auth_url sch ui h pt p' q f
              /\ pth_text p' = session_text st (pth_text p) ops.
 Proof.
-  intros K Hc Hu Hk Hg E. pose proof (C06_SpliceAuth.auth_cls_nf st p Hc) as Hnf.
+  intros K Hc Hu Hg E. pose proof (C06_SpliceAuth.auth_cls_nf st p Hc) as Hnf.
   pose proof (proj1 (auth_url_wf hp hpo hd HRT _ _ _ _ _ _ _ _ K)) as W.
   assert (st_of (auth_url sch ui h pt p q f) = st) as Est.
   { unfold st_of. rewrite (auth_stype hd). exact (ak_st _ _ _ _ _ _ _ _ _ _ _ K). }
   pose proof (path_segments_session_exact dbg _ ops u' W (auth_byte_slash hd sch ui h pt p q f)) as X.
-  rewrite Est in X. specialize (X Hnf Hu Hk E). rewrite auth_path_bytes in X.
-  destruct (session_text_cls st ops p Hc Hu Hk Hg) as (p' & Hc' & E').
+  rewrite Est in X. specialize (X Hnf Hu E). rewrite auth_path_bytes in X.
+  destruct (session_text_cls st ops p Hc Hu Hg) as (p' & Hc' & E').
   exists p'. split; [exact Hc'|]. split; [|symmetry; exact E'].
   rewrite X, E'. rewrite !auth_url_qf. unfold C02_Auth.auth_pre. apply with_path_qf.
 Qed.
 
 Theorem psm_grow_Canon u ops u' : Canon hp hpo hd u -> has_authority_b u = true ->
-  Forall psm_op_usv ops -> Forall psm_op_plain ops -> Forall psm_op_grow ops ->
+  Forall psm_op_usv ops -> Forall psm_op_grow ops ->
   path_segments_session dbg u ops = Some (u', SOk) -> nlen (ser u') <= U32_MAX_P -> Canon hp hpo hd u'.
 Proof.
-  intros C Hau Hu Hk Hg E Hb.
+  intros C Hau Hu Hg E Hb.
   destruct (Canon_auth_cases hp hpo hd u C Hau) as (st & sch & ui & h & pt & p & q & f & -> & K & Hc).
-  destruct (psm_grow_auth st sch ui h pt p q f ops u' K Hc Hu Hk Hg E) as (p' & Hc' & -> & _).
+  destruct (psm_grow_auth st sch ui h pt p q f ops u' K Hc Hu Hg E) as (p' & Hc' & -> & _).
   cbn [ser C02_Auth.auth_url] in Hb.
   pose proof (auth_ok_path hp hpo hd st sch ui h pt p q f p' K (C06_SpliceAuth.pth_cls_ok st p' Hc') Hb) as K'.
   destruct Hc' as [[-> Hp']|[-> Hp']]; [apply Canon_auth | apply Canon_special]; assumption.
 Qed.
 
 Theorem psm_auth st sch ui h pt p q f ops u' : auth_ok st sch ui h pt p q f -> auth_cls st p ->
-  Forall psm_op_usv ops -> Forall psm_op_plain ops ->
+  Forall psm_op_usv ops ->
   path_segments_session dbg (auth_url sch ui h pt p q f) ops = Some (u', SOk) ->
   exists p', auth_cls st p' /\ u' = auth_url sch ui h pt p' q f
              /\ pth_text p' = session_text st (pth_text p) ops.
 Proof.
-  intros K Hc Hu Hk E. pose proof (C06_SpliceAuth.auth_cls_nf st p Hc) as Hnf.
+  intros K Hc Hu E. pose proof (C06_SpliceAuth.auth_cls_nf st p Hc) as Hnf.
   pose proof (proj1 (auth_url_wf hp hpo hd HRT _ _ _ _ _ _ _ _ K)) as W.
   assert (st_of (auth_url sch ui h pt p q f) = st) as Est.
   { unfold st_of. rewrite (auth_stype hd). exact (ak_st _ _ _ _ _ _ _ _ _ _ _ K). }
   pose proof (path_segments_session_exact dbg _ ops u' W (auth_byte_slash hd sch ui h pt p q f)) as X.
-  rewrite Est in X. specialize (X Hnf Hu Hk E). rewrite auth_path_bytes in X.
-  destruct (session_text_cls_all st ops p Hc Hu Hk) as (p' & Hc' & E').
+  rewrite Est in X. specialize (X Hnf Hu E). rewrite auth_path_bytes in X.
+  destruct (session_text_cls_all st ops p Hc Hu) as (p' & Hc' & E').
   exists p'. split; [exact Hc'|]. split; [|symmetry; exact E'].
   rewrite X, E'. rewrite !auth_url_qf. unfold C02_Auth.auth_pre. apply with_path_qf.
 Qed.
 
-(* a whole path_segments_mut session (any of the five operations, arguments outside F-C06-7) on a canonical record
+(* a whole path_segments_mut session (any of the five operations, any &str arguments: F-C06-7 is fixed) on a canonical record
    with an authority returns a canonical record *)
 Theorem psm_Canon u ops u' : Canon hp hpo hd u -> has_authority_b u = true ->
-  Forall psm_op_usv ops -> Forall psm_op_plain ops ->
+  Forall psm_op_usv ops ->
   path_segments_session dbg u ops = Some (u', SOk) -> nlen (ser u') <= U32_MAX_P -> Canon hp hpo hd u'.
 Proof.
-  intros C Hau Hu Hk E Hb.
+  intros C Hau Hu E Hb.
   destruct (Canon_auth_cases hp hpo hd u C Hau) as (st & sch & ui & h & pt & p & q & f & -> & K & Hc).
-  destruct (psm_auth st sch ui h pt p q f ops u' K Hc Hu Hk E) as (p' & Hc' & -> & _).
+  destruct (psm_auth st sch ui h pt p q f ops u' K Hc Hu E) as (p' & Hc' & -> & _).
   cbn [ser C02_Auth.auth_url] in Hb.
   pose proof (auth_ok_path hp hpo hd st sch ui h pt p q f p' K (C06_SpliceAuth.pth_cls_ok st p' Hc') Hb) as K'.
   destruct Hc' as [[-> Hp']|[-> Hp']]; [apply Canon_auth | apply Canon_special]; assumption.
